@@ -69,6 +69,7 @@ func prop(t *rapid.T) {
 		t.Fatalf("%s\ncfg sealing=%s reset=%s\n%v", fmt.Sprintf(format, args...), cfgS.Name, cfgR.Name, scen.DescribeScenario(sc))
 	}
 	seals, votingWouldContinue, setDiffers, changedThenBlocks := 0, 0, 0, 0
+	sameEpochResets := 0
 	prevChanged := false
 	var kinds []string
 	for k, plan := range sc.Epochs {
@@ -135,8 +136,20 @@ func prop(t *rapid.T) {
 					fail("state after Reset(%d): %s", ref.Epoch, got)
 				}
 			}
-			rb := len(r.Blocks)
 			orderR := dagen.GenOrder(t, ref, fmt.Sprintf("reset.ep%d", k))
+			if rapid.IntRange(0, 2).Draw(t, "restartSameEpoch") == 0 {
+				// the instance first processes a part of the epoch, is then Reset to the very same epoch (and set)
+				// and starts over: nothing of the abandoned attempt may survive
+				part := rapid.IntRange(1, len(orderR)).Draw(t, "abandonedPrefix")
+				if res := scen.FeedEpoch(r, ref, orderR[:part], nil); res.Err != nil || len(r.Crits) > 0 {
+					fail("reset instance (abandoned attempt): Process(e%d) = %v crit %v", res.ErrAt, res.Err, r.Crits)
+				}
+				if err := r.L.Reset(idx.Epoch(ref.Epoch), ref.Validators()); err != nil {
+					fail("Reset to the current epoch: %v", err)
+				}
+				sameEpochResets++
+			}
+			rb := len(r.Blocks)
 			res := scen.FeedEpoch(r, ref, orderR, nil)
 			if res.Err != nil || len(r.Crits) > 0 {
 				fail("reset instance: Process(e%d) = %v crit %v", res.ErrAt, res.Err, r.Crits)
@@ -193,6 +206,9 @@ func prop(t *rapid.T) {
 	classes := []string{fmt.Sprintf("seals_%d", seals)}
 	for _, kd := range kinds {
 		classes = append(classes, "next_"+kd)
+	}
+	if sameEpochResets > 0 {
+		classes = append(classes, "reset_to_the_current_epoch")
 	}
 	if earlySeals > 0 {
 		classes = append(classes, "sealed_by_multi_frame_root")
